@@ -1,5 +1,6 @@
 """Module implementing a base for standard ONNX operators, which use the functionality of ONNX node-level inference."""
 
+import logging
 from typing import TYPE_CHECKING, Callable, Dict, Tuple
 
 import numpy as np
@@ -174,12 +175,23 @@ class StandardNode(Node):
 
         output_feed = run(model, input_feed)
 
-        results = {
-            scope.var[str(name)]._which_output: unwrap_feed(
-                scope.var[str(name)].unwrap_type(), result
-            ).value
-            for name, result in output_feed.items()
-        }
+        try:
+            results = {
+                scope.var[str(name)]._which_output: unwrap_feed(
+                    scope.var[str(name)].unwrap_type(), result
+                ).value
+                for name, result in output_feed.items()
+            }
+        except Exception as e:
+            # A result that cannot be converted (unknown output name, wrong container, ...)
+            # is a failure of the backend: give up on value propagation for this node.
+            if _value_prop.VALUE_PROP_STRICT_CHECK:
+                raise
+            logging.debug(
+                f"Value propagation in {model} gave an unusable result - "
+                f"{type(e).__name__}: {e}"
+            )
+            return {}
         return {k: v for k, v in results.items() if k is not None}
 
     def infer_output_types(self) -> Dict[str, Type]:
